@@ -465,7 +465,9 @@ def oracle_c11(script, ig, mg):
         if g.line.startswith("burst ") and not g.line.startswith("burst ok"):
             return [("write-or-flush-failed-under-back-pressure", {"group": i, "line": g.line})]
     if sum(1 for c in prim if c == "open") != 1 or any(c in ("drop", "crash") for c in prim) \
-            or any(c.startswith("burst") for c in prim):
+            or any(c.startswith("burst") for c in prim) or any(l.startswith("fsop touch") for l in script):
+        # (a blocked rotation leaves a stray file and a failed call whose record was journalled: those
+        # scripts are judged by the model correspondence on dump, directory and size)
         return fails
     mr, ms = parse_cfg(script)
     expected = []  # (global_off, size, rec_prefix) of every journalled record
@@ -832,6 +834,11 @@ def scripts_c11(tier, rng):
         out.append((f"c11_{i}", lines))
         for k, v in g.stats.items():
             stats[k] = stats.get(k, 0) + v
+    # a rotation that fails on the caller thread (a stray file has the next chunk's name) with unflushed
+    # records in the buffer, then the store is used on
+    bl = blocked_rotation_scripts([(n, l) for n, l in out[: (30 if tier == "quick" else 300)]
+                                   if not any(x.startswith("burst") for x in l)], rng, "c11x")
+    out += [(n, l + ["st", "dir", "size", "dumpw"]) for n, l in bl]
     # file names: ids over the whole u64 range, malformed names
     names = []
     for _ in range(30 if tier == "quick" else 300):
